@@ -407,9 +407,23 @@ func runConcurrent(c Case, choose func(int, []string) int) outcome {
 	byCode, byID := w.codeRecord(code.Code, code.ID)
 	if o.successes == 1 {
 		a := winners[0]
-		for name, rec := range map[string]*models.TunnelConnectionCode{"by-code": byCode, "by-id": byID} {
+		for _, name := range []string{"by-code", "by-id"} {
+			rec := byCode
+			if name == "by-id" {
+				rec = byID
+			}
 			if rec == nil || !rec.IsActivated || rec.MappingID == nil || *rec.MappingID != a.mapping.ID || rec.ActivatedBy == nil || *rec.ActivatedBy != a.listen || rec.IsRevoked {
-				fail("C06/code-record-not-activated-after-success/"+name+faultSfx, fmt.Sprintf("A(listen %d) succeeded with %s; %s record: %s", a.listen, a.mapping.ID, name, recStr(rec)))
+				// root cause: did another call that had read the code before the winner wrote it write the record too?
+				key := "C06/code-record-not-activated-after-success/" + name + faultSfx
+				for _, b := range acts {
+					if b != a && b.firstWrite >= 0 && bothReadFirst(a.read, a.firstWrite, b.read, b.firstWrite) {
+						key = "C06/code-record-overwritten/overlapping-activation" + faultSfx
+					}
+				}
+				if c.Revoke && revWrite >= 0 && bothReadFirst(a.read, a.firstWrite, revRead, revWrite) {
+					key = "C06/code-record-overwritten/overlapping-revoke" + faultSfx
+				}
+				fail(key, fmt.Sprintf("A(listen %d) succeeded with %s; %s code record afterwards: %s", a.listen, a.mapping.ID, name, recStr(rec)))
 				return o
 			}
 		}
@@ -451,12 +465,6 @@ func sigOf(c Case, o outcome) string {
 
 func report(t vkit.TB, c Case, o outcome) {
 	nt := o.overlap || o.faultMid
-	if o.key != "" {
-		vkit.Violation(t, o.key, o.detail, c)
-		vkit.Case("known:"+o.class, nt, sigOf(c, o))
-		return
-	}
-	vkit.Case(o.class, nt, sigOf(c, o))
 	if o.overlap {
 		vkit.Class("feat:overlap(both read before either wrote)")
 	}
@@ -466,7 +474,13 @@ func report(t vkit.TB, c Case, o outcome) {
 			vkit.Class("feat:fault between mapping stored and code updated")
 		}
 	}
-	vkit.Class(fmt.Sprintf("outcome:successes=%d,revoked=%v", o.successes, o.revokeOK))
+	vkit.Class(fmt.Sprintf("outcome:successes=%d,revoke_ok=%v", o.successes, o.revokeOK))
+	if o.key != "" {
+		vkit.Violation(t, o.key, o.detail, c)
+		vkit.Case("known:"+o.class, nt, sigOf(c, o))
+		return
+	}
+	vkit.Case(o.class, nt, sigOf(c, o))
 	vkit.Sample(o.class, map[string]any{"case": c, "schedule": normSteps(o.log), "successes": o.successes})
 }
 
@@ -578,7 +592,6 @@ func spaces() []space {
 	mk := func(n int, rev, second bool, gran string, quota int) Case {
 		return Case{Mode: "concurrent", NAct: n, Revoke: rev, SecondNode: second, Gran: gran, QuotaFull: quota, FailAt: -1}
 	}
-	capS := vkit.Pick(250, 1<<30)
 	return []space{
 		// code-record granularity: 3 scheduling points per task
 		{mk(2, false, false, "code", -1), 1, 1 << 30, false},  // 20 schedules
@@ -586,11 +599,11 @@ func spaces() []space {
 		{mk(2, true, false, "code", -1), 2, 1 << 30, false},   // 1680
 		{mk(3, false, true, "code", -1), 2, 1 << 30, false},   // 1680
 		{mk(2, false, false, "code", 0), 1, 1 << 30, false},   // quota-full activator races a valid one
-		{mk(3, true, false, "code", -1), 3, vkit.Pick(150, 60000), false}, // 369600: capped
+		{mk(3, true, false, "code", -1), 3, vkit.Pick(400, 60000), false}, // 369600: capped
 		// shared-key granularity: 9 scheduling points per activator (48620 schedules for two)
-		{mk(2, false, false, "shared", -1), 4, capS, false},
-		{mk(2, false, true, "shared", -1), 4, vkit.Pick(100, 1<<30), false},
-		{mk(2, true, false, "shared", -1), 4, vkit.Pick(100, 40000), false},
+		{mk(2, false, false, "shared", -1), 4, 1 << 30, false}, // complete in both tiers
+		{mk(2, false, true, "shared", -1), 4, vkit.Pick(300, 1<<30), false},
+		{mk(2, true, false, "shared", -1), 4, vkit.Pick(300, 40000), false},
 	}
 }
 
